@@ -129,3 +129,132 @@ def modes_slices(D, N):
     for combo in itertools.product(*([[last]] + [[left, right]] * (D - 1))):
         out.append((slice(None),) + tuple(reversed(combo)))
     return tuple(out)
+
+
+# ======================================================================= transforms & friends
+from symjnp import ops  # noqa: E402
+
+
+def last_axes(ndim, D):
+    return tuple(range(ndim - D, ndim))
+
+
+def fft(field, num_spatial_dims=None):
+    """C04 mechanism 'forward transform with backward normalisation': rfftn over the LAST D axes (D = ndim-1 if omitted)"""
+    D = field.ndim - 1 if num_spatial_dims is None else num_spatial_dims
+    return ops.rfftn(field, axes=last_axes(field.ndim, D))
+
+
+def ifft(field_hat, num_spatial_dims=None, num_points=None):
+    """inverse rfftn over the last D axes with output sizes s=(N,)*D; N defaults to shape[-2] for D>=2"""
+    D = field_hat.ndim - 1 if num_spatial_dims is None else num_spatial_dims
+    N = field_hat.shape[-2] if num_points is None else num_points
+    return ops.irfftn(field_hat, s=(N,) * D, axes=last_axes(field_hat.ndim, D))
+
+
+def derivative(field, L, order=1, indexing="ij"):
+    """C05 mechanism: derivative = ifft((i k)^order * fft(u)), gradient axis inserted after the channel axis;
+    a single channel returns shape (D, ...) (docstring)"""
+    C, D, N = field.shape[0], field.ndim - 1, field.shape[1]
+    dop = derivative_operator(D, L, N, indexing)
+    fh = fft(field, D)
+    if values.dims_equal(C, 1):
+        hat = arr((D,) + wshape(D, N), lambda idx: smt.cmul(smt.cpow_int(dop.at_((idx[0],) + idx[1:]), order), fh.at_((0,) + idx[1:])), "complex")
+    else:
+        hat = arr((C, D) + wshape(D, N), lambda idx: smt.cmul(smt.cpow_int(dop.at_((idx[1],) + idx[2:]), order), fh.at_((idx[0],) + idx[2:])), "complex")
+    return ifft(hat, D, N)
+
+
+def make_incompressible(field, indexing="ij"):
+    """C10 mechanism 'pressure-Poisson correction': u_hat - grad(inv_laplace(div u_hat)), mean mode untouched"""
+    D, N = field.ndim - 1, field.shape[1]
+    dop = derivative_operator(D, 1, N, indexing)
+    fh = fft(field, D)
+
+    def fn(idx):
+        c, s = idx[0], idx[1:]
+        div = csum([smt.cmul(dop.at_((j,) + s), fh.at_((j,) + s)) for j in range(D)])
+        lap = csum([smt.cpow_int(dop.at_((j,) + s), 2) for j in range(D)])  # real: -|kappa|^2
+        is0 = smt.req(lap.re, 0)
+        inv = smt.rite(is0, 1, smt.rdiv(1, lap.re))
+        corr = smt.cmul(dop.at_((c,) + s), smt.cmul(CX(inv, 0), div))
+        return smt.csub(fh.at_((c,) + s), corr)
+    return ifft(arr((D,) + wshape(D, N), fn, "complex"), D, N)
+
+
+def fourier_coefficients(state, scaling_compensation_mode="coef_extraction", round=5, indexing="ij"):
+    """docstring: fft(state) divided by the scaling array of the chosen mode (None: no scaling), rounded to `round` decimals"""
+    D, N = state.ndim - 1, state.shape[-1]
+    fh = fft(state)
+    if scaling_compensation_mode is not None:
+        sc = scaling_array(D, N, *SCALING_DENOMS[scaling_compensation_mode], indexing)
+        co = arr(fh.shape, lambda idx: smt.cdiv(fh.at_(idx), CX(sc.at_((0,) + idx[1:]), 0)), "complex")
+    else:
+        co = fh
+    if round is not None:
+        co = arr(co.shape, lambda idx, co=co: CX(smt.ROUND(smt.zr(co.at_(idx).re)), smt.ROUND(smt.zr(co.at_(idx).im))), "complex")
+    return co
+
+
+def spectrum(state, power=True, radial_binning="sum"):
+    """C17: mode k contributes to bin b iff b-1/2 <= |k| < b+1/2 (b = 0..N//2); amplitude weight 1/recon,
+    power weight 1/(2*recon*N^D) (i.e. 0.5 * |u_hat|/recon * |u_hat|/norm_comp); average = sum / count"""
+    D, N = state.ndim - 1, state.shape[-1]
+    C = state.shape[0]
+    fh = fft(state, D)
+    rec = scaling_array(D, N, *SCALING_DENOMS["reconstruction"])
+    nc = scaling_array(D, N, *SCALING_DENOMS["norm_compensation"])
+
+    def q(c, s):
+        a = smt.rsqrt(smt.cabs2(fh.at_((c,) + s)))
+        mag = smt.rdiv(a, rec.at_((0,) + s))
+        if power:
+            return smt.rmul(Fraction(1, 2), smt.rmul(mag, smt.rdiv(a, nc.at_((0,) + s))))
+        return mag
+    if D == 1:
+        return arr((C, N // 2 + 1), lambda idx: q(idx[0], idx[1:]))
+    nb = N // 2 + 1
+
+    def inbin(b, s):
+        r = smt.rsqrt(rsum([smt.rmul(k_of(d, s, D, N), k_of(d, s, D, N)) for d in range(D)]))
+        return smt.band(smt.rge(r, smt.rsub(b, Fraction(1, 2))), smt.rlt(r, smt.radd(b, Fraction(1, 2))))
+    # build the (C, nb, spatial...) integrand and SUM over the spatial axes
+    integrand = arr((C, nb) + wshape(D, N), lambda idx: smt.rite(inbin(idx[1], idx[2:]), q(idx[0], idx[2:]), 0))
+    total = values.reduce_("sum", integrand, tuple(range(2, 2 + D)), False)
+    if radial_binning == "sum":
+        return total
+    count = values.reduce_("sum", arr((C, nb) + wshape(D, N), lambda idx: smt.rite(inbin(idx[1], idx[2:]), 1, 0)), tuple(range(2, 2 + D)), False)
+    return arr((C, nb), lambda idx: smt.rdiv(total.at_(idx), count.at_(idx)))
+
+
+# ============================================================================== grid utilities
+def grid(D, L, N, full=False, zero_centered=False, indexing="ij"):
+    """C04: 'The grid is left-inclusive/right-exclusive with spacing L/N'; full adds the right end point,
+    zero_centered subtracts L/2, xy swaps the first two axes (meshgrid convention)."""
+    n = N + 1 if full else N
+
+    def fn(idx):
+        d, s = idx[0], idx[1:]
+        comps = []
+        for j in range(D):
+            x = smt.rdiv(smt.rmul(s[axis_of_channel(j, D, indexing)], T(L)), T(N))
+            if zero_centered:
+                x = smt.rsub(x, smt.rdiv(T(L), 2))
+            comps.append(x)
+        return pick(d, comps)
+    return arr((D,) + (n,) * D, fn)
+
+
+def wrap_bc(u):
+    """docstring: append the periodic image of the first entry along every spatial axis"""
+    D = u.ndim - 1
+    shape = (u.shape[0],) + tuple(d + 1 for d in u.shape[1:])
+
+    def fn(idx):
+        src = [idx[0]]
+        for ax in range(1, D + 1):
+            n = T(u.shape[ax])
+            src.append(smt.rite(smt.req(idx[ax], n), 0, idx[ax]))
+        src = [v if isinstance(v, int) else smt.norm(z3.simplify(smt.z(v))) for v in src]
+        return u.at_(tuple(src))
+    return arr(shape, fn, u.kind)
